@@ -252,21 +252,11 @@ fn random(a: &Args, tracer: &Tracer) {
             .map(|l| l.unwrap()).filter(|l| !l.trim().is_empty()).map(|l| serde_json::from_str(&l).expect("fixed query")).collect(),
         None => vec![],
     };
-    let avoid = !a.flag("no-avoid");
     let mut opts = qlib::GenOpts::all(depth);
     opts.avoid_single_should_msm = false;
     let total = if fixed.is_empty() { nq } else { fixed.len() };
     for qi in 0..total {
-        let mut qj = if fixed.is_empty() {
-            loop {
-                let q = qlib::gen_query(&mut rng, depth, &opts);
-                if !(avoid && qlib::has_phrase_under_mustnot(&q)) {
-                    break q;
-                }
-            }
-        } else {
-            fixed[qi].clone()
-        };
+        let mut qj = if fixed.is_empty() { qlib::gen_query(&mut rng, depth, &opts) } else { fixed[qi].clone() };
         annotate_prefix(&mut qj);
         let q = match qlib::build_query(&schema, &qj) {
             Ok(q) => q,
